@@ -280,6 +280,7 @@ package encode
 //@        && isUvarint(bytesOf(bobj(b)), L + ts + uvarintLen(dataSize), uvarintLen(ts), ts)
 //@        && bytesOf(bobj(b))[L + result0 - 1] == ite(big, 81, 80)
 //@   ensures[C08] dataSize > 2147483647 ==> result1 != nil && blen(b) == L
+//@   ensures[C08] 0 <= dataSize && dataSize <= 2147483647 && ts > 2147483647 ==> result1 != nil
 //@   ensures[C08] forall i :: 0 <= i && i < L ==> bytesOf(bobj(b))[i] == old(bytesOf(bobj(b)))[i]
 //@   ensures blen(b) >= old(blen(b)) && bobj(b) > 0
 
@@ -301,6 +302,7 @@ package encode
 //@        && isUvarint(bytesOf(bobj(b)), L + ts + uvarintLen(dataSize), uvarintLen(ts), ts)
 //@        && bytesOf(bobj(b))[L + result0 - 1] == ite(big, 71, 70)
 //@   ensures[C08] dataSize > 2147483647 ==> result1 != nil && blen(b) == L
+//@   ensures[C08] 0 <= dataSize && dataSize <= 2147483647 && ts > 2147483647 ==> result1 != nil
 //@   ensures[C08] forall i :: 0 <= i && i < L ==> bytesOf(bobj(b))[i] == old(bytesOf(bobj(b)))[i]
 //@   ensures blen(b) >= old(blen(b)) && bobj(b) > 0
 
